@@ -10,6 +10,7 @@
 from abc import abstractmethod
 from collections.abc import Callable
 import math
+import re
 import operator
 import datetime
 from calendar import isleap
@@ -30,6 +31,7 @@ _1DAY_DELTA = datetime.timedelta(days=1)
 _REF_DATETIME = datetime.datetime(1, 1, 1)
 _MAX_OFFSET = datetime.timedelta(hours=14, minutes=0)
 _MIN_OFFSET = datetime.timedelta(hours=-14, minutes=0)
+_TIMEZONE_PATTERN = re.compile(r'[+-](?:(?:0[0-9]|1[0-3]):[0-5][0-9]|14:00)')
 
 __all__ = ['Timezone', 'AbstractDateTime', 'DateTime', 'GregorianDay',
            'GregorianMonth', 'GregorianYear', 'GregorianMonthDay',
@@ -57,17 +59,20 @@ class Timezone(datetime.tzinfo):
     @classmethod
     def fromstring(cls, text: str) -> 'Timezone':
         try:
-            hours, minutes = text.strip().split(':')
-            if hours.startswith('-'):
-                return cls(datetime.timedelta(hours=int(hours), minutes=-int(minutes)))
-            else:
-                return cls(datetime.timedelta(hours=int(hours), minutes=int(minutes)))
-        except AttributeError:
-            raise TypeError("argument is not a string")
-        except ValueError:
-            if text.strip() == 'Z':
-                return cls(datetime.timedelta(0))
-            raise ValueError("%r: not an XSD timezone formatted string" % text) from None
+            literal = text.strip(' \t\n\r')
+        except (AttributeError, TypeError):
+            raise TypeError("argument is not a string") from None
+
+        if literal in ('Z', '00:00', '-0:0'):
+            return cls(datetime.timedelta(0))
+        elif _TIMEZONE_PATTERN.fullmatch(literal) is None:
+            raise ValueError("%r: not an XSD timezone formatted string" % text)
+
+        hours, minutes = literal.split(':')
+        if hours.startswith('-'):
+            return cls(datetime.timedelta(hours=int(hours), minutes=-int(minutes)))
+        else:
+            return cls(datetime.timedelta(hours=int(hours), minutes=int(minutes)))
 
     @classmethod
     def fromduration(cls, duration: 'Duration') -> 'Timezone':
